@@ -255,6 +255,86 @@ def processBdReq (r : BdReq) : Outcome BdResult :=
     else if !r.dstPortOk then .ok .errOther
     else .ok .response
 
+/-! ### the registrar as a component: requests, reloads and the selector lock
+
+`processBdReq` takes the read lock of `selectorMutex` to snapshot the selector; `ReloadSubnets` takes the
+write lock. A read lock that a return path leaves held is invisible in that request's answer; it shows when
+the next reload waits for ever and, behind the waiting writer, every later request. `holdAcrossSelect` is
+the variant that releases the lock only below the two selections (their error returns then keep it);
+the code under test is `false`: `RLock; selector := p.ipSelector; RUnlock`. -/
+
+/-- `processBdReq` with the number of read locks it still holds when it returns -/
+def processBdReqLocks (holdAcrossSelect : Bool) (r : BdReq) : Outcome BdResult × Nat :=
+  if !r.hasPayload then (.ok .errNoC2SBody, 0)
+  else if !r.keysOk then (.ok .errOther, 0)
+  else
+    -- RLock; snapshot; (RUnlock here unless holdAcrossSelect)
+    let inSelect : Nat := if holdAcrossSelect then 1 else 0
+    let sel4 : Outcome Bool :=
+      if r.v4 then
+        match r.select4 with
+        | none => .ok false
+        | some ip => (beUint32 (to4 ip)).bind fun _ => .ok true
+      else .ok true
+    match sel4 with
+    | .ok false => (.ok .errOther, inSelect)            -- `return nil, err` inside the IPv4 block
+    | .ok true =>
+      if r.v6 ∧ r.select6.isNone then (.ok .errOther, inSelect)   -- … inside the IPv6 block
+      else
+        -- (RUnlock here when holdAcrossSelect)
+        if !r.transportKnown then (.ok .errOther, 0)
+        else if !r.paramsOk then (.ok .errOther, 0)
+        else if !r.overrideOk then (.ok .errOther, 0)
+        else if !r.dstPortOk then (.ok .errOther, 0)
+        else (.ok .response, 0)
+    | .err e => (.err e, inSelect)
+    | .panic s => (.panic s, inSelect)
+    | .hang => (.hang, inSelect)
+
+/-- the registrar's lock state between operations: read locks that were leaked, and whether a writer is
+waiting for them (it waits for ever: nobody is left to release them) -/
+structure RegLock where
+  readers : Nat := 0
+  writerWaiting : Bool := false
+deriving Repr, DecidableEq
+
+inductive RegOp
+  | request (r : BdReq)
+  | reload
+deriving Repr
+
+inductive RegAnswer
+  | answered (r : Outcome BdResult)
+  | reloaded
+  /-- the operation never returns -/
+  | blocked
+deriving Repr
+
+/-- one operation, run to completion before the next starts (the harness' histories are sequential).
+A request that never reaches `RLock` is answered even behind a waiting writer. -/
+def regStep (hold : Bool) (s : RegLock) : RegOp → RegLock × RegAnswer
+  | .reload =>
+    if s.writerWaiting then (s, .blocked)               -- behind the writer that is already waiting
+    else if s.readers > 0 then ({ s with writerWaiting := true }, .blocked)
+    else (s, .reloaded)
+  | .request r =>
+    let reachesLock := r.hasPayload ∧ r.keysOk
+    if s.writerWaiting ∧ reachesLock then (s, .blocked)  -- `RLock` queues behind a waiting writer
+    else
+      let (ans, leaked) := processBdReqLocks hold r
+      ({ s with readers := s.readers + leaked }, .answered ans)
+
+def regRun (hold : Bool) : RegLock → List RegOp → RegLock × List RegAnswer
+  | s, [] => (s, [])
+  | s, op :: rest =>
+    let (s1, a) := regStep hold s op
+    let (s2, as) := regRun hold s1 rest
+    (s2, a :: as)
+
+def RegAnswer.isBlocked : RegAnswer → Bool
+  | .blocked => true
+  | _ => false
+
 /-- `processC2SWrapper`: nil wrapper and short secrets are errors; everything else is read through
 nil-safe getters -/
 def processC2SWrapper (wrapperPresent : Bool) (secretLen : Nat) (marshalOk : Bool) : Outcome Bool :=
